@@ -101,14 +101,14 @@ pub fn leaf_cv(code: u64, dom: u64, depth: u32) -> CV {
             CV::tag(t, if depth >= 2 { CV::U(1) } else { leaf_cv(r.next() | 8, dom, depth + 1) })
         }
         12 => {
-            // long, compressible text
+            // long, compressible text (now and then long enough to cross the 16-bit length head)
             let w = ascii_word(&mut r, 3, 8);
-            let reps = r.range(10, 60) as usize;
+            let reps = if r.chance(1, 48) { r.range(8000, 9000) as usize } else { r.range(10, 60) as usize };
             CV::T(std::iter::repeat(w).take(reps).collect::<Vec<_>>().join(" "))
         }
         13 => {
-            // long incompressible bytes
-            let n = r.range(64, 300);
+            // long incompressible bytes (now and then at the edges of the 8- and 16-bit length heads)
+            let n = if r.chance(1, 36) { *r.pick(&[255u64, 256, 257, 65535, 65536, 70000]) } else { r.range(64, 300) };
             CV::B(r.bytes(n as usize))
         }
         15 => {
